@@ -115,6 +115,14 @@ CHECKS = {
                 "and each edge is replayed over a real connection.",
         "note": MC_NOTE,
     },
+    "C20": {
+        "engine": "LogTrace.tla", "level": "model_checking", "design_ref": "7 (C20), 8",
+        "technique": "capturing logger over fault/session families (incl. the write of the PASS line itself failing); TLC evaluates the no-leak invariant on every captured record (trace validation)",
+        "text": "Every record handed to an installed logging.Logger (all four levels) is captured over passwords x session kinds (plain, negotiation, tracking, ConnectTo, dial failure, "
+                "refused connect, EOF after the burst, the n-th socket write failing for n = 1..4) and TLC checks that no record contains the password and that an outgoing PASS line is "
+                "shown only masked. Thin use of the technique: the model contributes the invariant, the search is the driver's.",
+        "note": "Trusted: TLC string operators, the harness. Passwords that occur in the password-free baseline of a session are skipped for that session.",
+    },
     "C12": {
         "engine": "Tracker.tla", "level": "model_checking", "design_ref": "7 (C12), 4.4",
         "technique": "TLA+ relational model; TLC closure of reachable states; every state-graph edge replayed on the real tracker + TLC trace validation of recorded random histories",
